@@ -466,7 +466,7 @@ def run_case(case):
                 S = sp.csr_array(Mdiff + Mconv)
                 old = np.array(phi.value, copy=True)
                 spy = SpySolver()
-                solve_with(pf, spy, phi, [pf.transientTerm(phi, dt, alpha), Mdiff, Mconv, bvec], default_path=default_path)
+                solve_with(pf, spy, phi, [pf.transientTerm(phi, dt, alpha), Mdiff, Mconv, bvec], default_path=default_path, allow_outside=True)
                 M, b, x = spy.last
                 if not np.all(np.isfinite(x)):
                     inconclusive = 'singular system'
